@@ -235,6 +235,8 @@ class PtrInfo:
     overloaded: bool = False
     extras: list = field(default_factory=list)   # member specs (see build_ptr_node)
     ext: object = None        # key of an abstract link / property it extends
+    ext_lprops: list = field(default_factory=list)   # link properties inherited from `ext` (only
+                              # referenced from the declaring type: see probe abslink-lprop-from-subtype)
 
 
 @dataclass
@@ -286,7 +288,8 @@ def visible(t: TypeInfo, memo: dict) -> dict:
         return memo[t.key]
     res = {}
     for pn, pi in t.own.items():
-        res[pn] = Vis(t, pi, {lp: (t.key, (pn,)) for lp in pi.lprops})
+        res[pn] = Vis(t, pi, {**{lp: (pi.ext, ()) for lp in pi.ext_lprops},
+                              **{lp: (t.key, (pn,)) for lp in pi.lprops}})
     for b in t.bases:
         for pn, v in visible(b, memo).items():
             if pn not in res:
@@ -632,7 +635,7 @@ class Gen:
         rng = self.rng
         big = self.size == 'large'
         mods = ['default']
-        if self.size != 'tiny' and self.chance(0.6):
+        if self.chance(0.4 if self.size == 'tiny' else 0.7):
             mods.append('m1')
             if self.chance(0.4):
                 mods.append('m2')
@@ -964,7 +967,13 @@ class Gen:
                     cands = [(x, pn) for x in u.types for pn, v in visible(x, {}).items()
                              if v.pi.kind == 'link' and v.pi.computed is None and v.pi.target in up]
                     if cands:
-                        x, pn = rng.choice(cands)
+                        # prefer a subtype that merely INHERITS the link from another module:
+                        # the trace then names `x@pn`, which exists only on an ancestor
+                        cross = [(x, pn) for x, pn in cands
+                                 if pn not in x.own and visible(x, {})[pn].src.mod != x.mod]
+                        inh = [(x, pn) for x, pn in cands if pn not in x.own]
+                        pool = cross if (cross and self.chance(0.6)) else (inh if (inh and self.chance(0.5)) else cands)
+                        x, pn = rng.choice(pool)
                         e = Path(None, [('b', pn, x)])
                         tgt = x
                 if e is None:
@@ -1172,7 +1181,12 @@ class Builder:
         if pi.computed is not None:
             e = pi.computed
             s, w, opt = self.trace(e, mod, t)
-            return Node('computed', mod, name, pi.name, pi.name, f'{kw} {pi.name} := ({e.text(mod)})',
+            # When another declaration's path goes through this computable the tracer looks
+            # into its expression with the OTHER declaration's module as current module
+            # (`_fork_context` keeps ctx.module), so unqualified names in it would be resolved
+            # in the wrong module.  With more than one module, write them fully qualified.
+            tm = mod if len(self.u.mods) == 1 else '\x00'
+            return Node('computed', mod, name, pi.name, pi.name, f'{kw} {pi.name} := ({e.text(tm)})',
                         flags={'isPtr': True, 'isComp': True}, erefs=s, wrefs=w, erefs_opt=opt,
                         req=[t.key] + self.req_of(s))
         ext = f' extending {qual(mod, pi.ext)}' if pi.ext else ''
